@@ -467,6 +467,10 @@ impl MorselAggregateExec {
                 let Some(stats) = col.statistics() else {
                     return Ok(None);
                 };
+                // The direct-address array has no slot for the NULL group.
+                if stats.null_count_opt().is_some_and(|n| n > 0) {
+                    return Ok(None);
+                }
                 use parquet::file::statistics::Statistics;
                 let (lo, hi) = match stats {
                     Statistics::Int64(s) => match (s.min_opt(), s.max_opt()) {
@@ -543,17 +547,23 @@ impl MorselAggregateExec {
             source.total_work(),
             rayon::current_num_threads(),
         );
+        // Set when a NULL group key turns up in a file whose footer carried no
+        // null count: the generic morsel path (which has a NULL group) takes
+        // over instead of failing the query.
+        let saw_null_key = std::sync::atomic::AtomicBool::new(false);
         let results: Vec<Result<()>> = (0..num_threads)
             .into_par_iter()
             .map(|_| {
                 while let Some(work) = source.get_work() {
+                    if saw_null_key.load(Ordering::Relaxed) {
+                        return Ok(());
+                    }
                     let batches = source.read_row_group(&work)?;
                     for batch in batches {
                         let key_arr = batch.column(key_pos);
                         if key_arr.null_count() > 0 {
-                            return Err(QueryError::Execution(
-                                "dense agg: null group keys unsupported".into(),
-                            ));
+                            saw_null_key.store(true, Ordering::Relaxed);
+                            return Ok(());
                         }
                         let keys_i64: Vec<i64> = match key_arr.data_type() {
                             DataType::Int64 => key_arr
@@ -675,6 +685,9 @@ impl MorselAggregateExec {
             .collect();
         for r in results {
             r?;
+        }
+        if saw_null_key.load(Ordering::Relaxed) {
+            return Ok(None);
         }
         if timing {
             eprintln!(
